@@ -345,7 +345,7 @@ def lookupSymbol_fn(manifest, with_contract=True):
     b, _, _ = src.block_after(r"const char \*lookupSymbol\(\) \{", "Processor::lookupSymbol")
     loop = ("for (size_t i=0; i<debugInfo_size; i++)\n"
             "    __CPROVER_assigns(i)\n"
-            "    __CPROVER_loop_invariant(i <= debugInfo_size && (i < debugInfo_size ==> lastPC >= debugInfo[i].second))\n"
+            "    __CPROVER_loop_invariant(i < debugInfo_size && lastPC >= debugInfo[i].second)\n"
             "    __CPROVER_decreases(debugInfo_size - i)\n  {")
     rules = [
         (r"debugInfo\.size\(\)", "debugInfo_size", 2),
